@@ -36,8 +36,8 @@ BOUND = {"quick": "depth 3 single instance, depth 2 two instances, depth 1-2 aft
          "thorough": "depth 4 single instance (reduced alphabet) / 3, depth 3 two instances, depth 2 after sweeps; 4 buffers"}
 EXPECT_OUTCOMES = ["ok"]
 
-CLASSES = ["qcow2", "qcow2-snapshot", "vmdk-sparse", "vmdk-flat", "vmdk-multi", "vhdx", "vhd-fixed", "vhd-dynamic", "vdi",
-           "hds", "hdd-storage"]
+CLASSES = ["qcow2", "qcow2-snapshot", "qcow2-backing", "vmdk-sparse", "vmdk-flat", "vmdk-multi", "vhdx", "vhdx-diff",
+           "vhd-fixed", "vhd-dynamic", "vdi", "vdi-child", "hds", "hds-child", "hdd-storage"]
 SWEEPS = ["qcow2", "vmdk-sparse", "vhd-dynamic", "vhdx"]
 
 
@@ -86,16 +86,31 @@ def _states5(variant, alpha):
 
 def _build_image(cls, variant, buf):
     lay = 1 + variant * 4
-    if cls in ("qcow2", "qcow2-snapshot"):
+    if cls in ("qcow2", "qcow2-snapshot", "qcow2-backing"):
         from dissect.hypervisor.disk.qcow2 import QCow2
 
         from mc.builders import qcow2 as B
 
-        st = ["N", "C", "U", "Z", "N"] if variant == 0 else ["C", "N", "N", "U", "Z"]
-        slots = [2, None, None, None, 0] if variant == 0 else [None, 1, 3, None, None]
+        st = ["N", "C", "C", "Z", "C"] if variant == 0 else ["C", "N", "C", "U", "Z"]
+        slots = [2, None, None, None, None] if variant == 0 else [None, 1, None, None, None]
         size = 5 * 4096 - 1000
+        if cls == "qcow2-backing":
+            from mc.models import GuestDisk
+
+            base_st = ["N", "N", "U", "N", "N"]
+            top_st = ["U", "C", "U", "Z", "U"] if variant == 0 else ["C", "U", "U", "U", "N"]
+            top_sl = [None] * 5 if variant == 0 else [None, None, None, None, 1]
+            braw = B.build(base_st, [3, 0, None, 1, 2], 12, 3, size - 4096 - 300, layer=lay + 1)[0].tobytes()
+            traw = B.build(top_st, top_sl, 12, 2 if variant else 3, size, layer=lay, backing_name="b.qcow2", comp_pack=True)[0].tobytes()
+            bdisk = B.model(base_st, 12, size - 4096 - 300, layer=lay + 1)
+            disk = B.model(top_st, 12, size, layer=lay, parent=bdisk)
+
+            def make():
+                return QCow2(_bio(traw), backing_file=QCow2(_bio(braw))), None, _noop
+            return dict(make=make, disk=disk, unit=4096, sectors=False)
         if cls == "qcow2":
-            raw = B.build(st, slots, 12, 3, size, layer=lay)[0].tobytes()
+            # compressed clusters are byte-packed: clusters 1, 2 and 4 start in the same 512-byte host sector
+            raw = B.build(st, slots, 12, 3, size, layer=lay, comp_pack=True)[0].tobytes()
             disk = B.model(st, 12, size, layer=lay)
 
             def make():
@@ -185,6 +200,65 @@ def _build_image(cls, variant, buf):
             v = VHD(_bio(raw))
             return v, v.disk.read_sectors, _noop
         return dict(make=make, disk=disk, unit=4096, sectors=True)
+    if cls == "vdi-child":
+        from dissect.hypervisor.disk.vdi import VDI
+
+        from mc.builders import vdi as B
+
+        bst = [DATA, DATA, ZERO, DATA, HOLE]
+        tst = _states5(variant, [HOLE, ZERO, DATA])
+        braw = B.build(bst, [3, 0, None, 1, None], 4096, 5 * 4096 - 1536, layer=lay + 1).tobytes()
+        traw = B.build(tst, _perm_slots(tst, variant), 4096, 5 * 4096 - 1536, layer=lay, image_type=4).tobytes()
+        disk = B.model(tst, 4096, 5 * 4096 - 1536, layer=lay, parent=B.model(bst, 4096, 5 * 4096 - 1536, layer=lay + 1))
+
+        def make():
+            return VDI(_bio(traw), parent=VDI(_bio(braw))), None, _noop
+        return dict(make=make, disk=disk, unit=4096, sectors=False)
+    if cls == "hds-child":
+        from dissect.hypervisor.disk.hdd import HDS
+
+        from mc.builders import hdd as B
+
+        bst = [DATA, HOLE, DATA, DATA, DATA]
+        tst = [HOLE, DATA, HOLE, HOLE, DATA] if variant == 0 else [DATA, HOLE, DATA, HOLE, HOLE]
+        # 2 KiB clusters: one aligned buffer read covers allocated and absent clusters of the child in every order
+        braw = B.build_hds(bst, [s + 2 if s is not None else None for s in _perm_slots(bst, 0)], 4, 2, 5 * 4 - 1, layer=lay + 1).tobytes()
+        traw = B.build_hds(tst, [s + 2 if s is not None else None for s in _perm_slots(tst, variant)], 4, 1, 5 * 4 - 1, layer=lay).tobytes()
+        disk = B.model_hds(tst, 4, 5 * 4 - 1, lay, parent=B.model_hds(bst, 4, 5 * 4 - 1, lay + 1))
+
+        def make():
+            return HDS(_bio(traw), parent=HDS(_bio(braw))), None, _noop
+        return dict(make=make, disk=disk, unit=2048, sectors=False)
+    if cls == "vhdx-diff":
+        from dissect.hypervisor.disk.vhdx import VHDX
+
+        from mc.builders import vhdx as B
+
+        root = _scratch_root()
+        dd = os.path.join(root, f"vhdx-{variant}-{buf}")
+        os.makedirs(dd, exist_ok=True)
+        spb = 2048
+        size = (1 << 20) + 20 * 1024 - 512
+        B.build([DATA, DATA], [1, 0], 1 << 20, 512, size, layer=lay + 1, disk_id=b"\x01" * 16).write_to(os.path.join(dd, "base.vhdx"))
+        bm = {0: [1 if (s % 11 in (1, 2, 3, 7) and s < 64) or (spb - 9 <= s < spb - 2) else 0 for s in range(spb)],
+              1: [1 if s % 5 == variant else 0 for s in range(spb)]}
+        B.build([B.PARTIAL, B.PARTIAL], [0, 1], 1 << 20, 512, size, layer=lay,
+                parent=[("relative_path", ".\\base.vhdx"), ("absolute_win32_path", "C:\\x\\base.vhdx")], bitmaps=bm,
+                disk_id=b"\x02" * 16).write_to(os.path.join(dd, "top.avhdx"))
+        bdisk = B.model([DATA, DATA], 1 << 20, 512, size, layer=lay + 1)
+        disk = B.model([B.PARTIAL, B.PARTIAL], 1 << 20, 512, size, layer=lay, parent=bdisk, bitmaps=bm)
+
+        def make():
+            v = VHDX(Path(dd) / "top.avhdx")
+
+            def closer():
+                for x in (v, v.parent):
+                    try:
+                        x.fh.close()
+                    except Exception:
+                        pass
+            return v, v.read_sectors, closer
+        return dict(make=make, disk=disk, unit=1 << 20, sectors=True, big=True)
     if cls == "vdi":
         from dissect.hypervisor.disk.vdi import VDI
 
